@@ -145,13 +145,18 @@ func finishSignature(signature, signedinfo *etree.Element, hash crypto.Hash, pri
 		return err
 	}
 	// build the rest of the signature element
-	if _, ok := privKey.Public().(*ecdsa.PublicKey); ok {
+	if ecPub, ok := privKey.Public().(*ecdsa.PublicKey); ok {
 		// reformat the signature without ASN.1 structure
 		esig, err := x509tools.UnmarshalEcdsaSignature(sig)
 		if err != nil {
 			return err
 		}
-		sig = esig.Pack()
+		// xmldsig wants both integers padded to the size of the curve order,
+		// regardless of how many leading zero bytes they happen to have
+		nbytes := (ecPub.Curve.Params().N.BitLen() + 7) / 8
+		sig = make([]byte, 2*nbytes)
+		esig.R.FillBytes(sig[:nbytes])
+		esig.S.FillBytes(sig[nbytes:])
 	}
 	signature.CreateElement("SignatureValue").SetText(base64.StdEncoding.EncodeToString(sig))
 	keyinfo := etree.NewElement("KeyInfo")
